@@ -47,7 +47,7 @@ pub fn prop() -> Prop<Hist> {
         rule: "Cases are histories over set/del/merge/reopen (overwrites across files, deletes of absent keys, merges of any subset, rebuilds from data and from hint files). After every op the verif_dump snapshot is compared with an independent decoder's scan of the data files: every index entry must decode at (file,pos,len) to its key with a value; per file live = index entries pointing into it, dead = all other entries, dead bytes = their total size (a missing accounting entry counts as zeros). Non-trivial: the history contains a delete of a present key, a cross-file overwrite, a merge and a reopen; distinct = distinct hash of the whole case.",
         assumptions: &["the current value of a key is taken from the store's own index and cross-checked against the disk, so C02/C05 defects are not re-reported here"],
         needs_shim: false,
-        budget: |t| t.pick(16000, 250000),
+        budget: |t| t.pick(48000, 250000),
         shards: |_| 16,
         strategy,
         exec,
